@@ -72,8 +72,12 @@ def serializer_rules(ctx, R):
     lists = [fc for fc in cfg.facts() if is_list_test(*fact_atom(fc))]
     cmds = [fc for fc in cfg.facts() if is_cmd_test(*fact_atom(fc))]
     tl = [fc for fc in cfg.facts() if "testlist" in norm(fc.expr) and fc.pol is True]
-    strs = [fc for fc in cfg.facts() if norm(fc.expr).replace('"', "'") == "'string' in atype" and fc.pol is True]
-    tags = [fc for fc in cfg.facts() if norm(fc.expr).replace('"', "'") == "'tag' in atype" and fc.pol is True]
+    def type_test(fc, word):
+        e = fc.expr
+        return fc.pol is True and isinstance(e, ast.Compare) and len(e.ops) == 1 and isinstance(e.ops[0], ast.In) \
+            and isinstance(e.left, ast.Constant) and e.left.value == word
+    strs = [fc for fc in cfg.facts() if type_test(fc, "string")]
+    tags = [fc for fc in cfg.facts() if type_test(fc, "tag")]
     for what, fs in (("list of values", lists), ("command (test)", cmds), ("list of tests", tl), ("string text", strs), ("tag", tags)):
         if fs:
             ctx.holds("S1", "branch for %s" % what)
@@ -250,7 +254,8 @@ def serializer_rules(ctx, R):
     if slot_loop:
         skips = [x for x in walk_no_nested(slot_loop[0]) if isinstance(x, ast.Continue)]
         # the write of the tag itself (first-level statement of the `"tag" in atype` branch) does not count as "value written"
-        tag_ifs = [i for i in walk_no_nested(slot_loop[0]) if isinstance(i, ast.If) and norm(i.test).replace('"', "'") == "'tag' in atype"]
+        tag_ifs = [i for i in walk_no_nested(slot_loop[0]) if isinstance(i, ast.If) and isinstance(i.test, ast.Compare) and len(i.test.ops) == 1
+                   and isinstance(i.test.ops[0], ast.In) and isinstance(i.test.left, ast.Constant) and i.test.left.value == "tag"]
         tag_writes = set()
         for i in tag_ifs:
             for st_ in i.body:
